@@ -71,9 +71,4 @@ and an object class name as allowed by `ObjClassName`" (error text: "must be eit
 consist out of `/` separated non-empty parts, and not contain any of `.`, `;`, `[`") -/
 def AnyClassName (s : JStr) : Prop := ClassName s ∨ ArrayDescriptor s
 
-/-- the *proved domain* of the two predicates that look at array class names (`ArrClassName`, `ClassName`): every string
-except those that start with `[` without being an array field descriptor.  On the excluded strings the code
-answers "valid" where its documentation says "invalid" (`TODO: must be a field desc` in `duke/src/tree/mod.rs`). -/
-def ArrNameDomain (s : JStr) : Prop := s.head? = some LBRACKET → ArrayDescriptor s
-
 end DescriptorGrammar
